@@ -1216,6 +1216,12 @@ def f_own_piv(ctx):
     if len(names) != 1:
         return
     S = next(iter(names))
+    # the map of unprotected header fields: third element of what _extract_encrypted0 returns
+    U = None
+    for n in walk_no_nested(fi.node):
+        if isinstance(n, ast.Assign) and isinstance(n.targets[0], ast.Tuple) and len(n.targets[0].elts) == 4 and isinstance(n.value, ast.Call) and (call_name(n.value) or "").endswith("._extract_encrypted0") and isinstance(n.targets[0].elts[2], ast.Name):
+            U = n.targets[0].elts[2].id
+    ctx.need(U is not None, "unprotect does not unpack _extract_encrypted0() into four locals")
     ws = writes_to_name(fi.node, S)
     ctx.floor("definitions of the window number in unprotect", len(ws), 2)
     for w in ws:
@@ -1224,14 +1230,14 @@ def f_own_piv(ctx):
             ctx.ob("without an own partial IV nothing is struck out or initialised (sentinel None)", True, fi, w)
             continue
         nid = cfg.loc1(w)
-        own = guarded_by(cfg, nid, "COSE_PIV not in unprotected", False) or guarded_by(cfg, nid, "COSE_PIV in unprotected", True)
+        own = guarded_by(cfg, nid, "COSE_PIV not in %s" % U, False) or guarded_by(cfg, nid, "COSE_PIV in %s" % U, True)
         ctx.ob("a window number is taken only from a message that carries its own partial IV", own, fi, w, detail="guards: %s" % [(stmt_text(e), p) for e, p in guard_exprs(cfg, nid)])
         ib = match("int.from_bytes($p, $**kw)", v) or match("int.from_bytes($p, $o)", v)
         src_ok = False
         if ib is not None and isinstance(ib["p"], ast.Name):
             for w2 in writes_to_name(fi.node, ib["p"].id):
-                if cfg.dominates(cfg.loc1(w2), nid) or guarded_by(cfg, cfg.loc1(w2), "COSE_PIV not in unprotected", False):
-                    if isinstance(w2, ast.Assign) and (match("unprotected.pop(COSE_PIV)", w2.value) is not None or match("unprotected[COSE_PIV]", w2.value) is not None):
+                if cfg.dominates(cfg.loc1(w2), nid) or guarded_by(cfg, cfg.loc1(w2), "COSE_PIV not in %s" % U, False):
+                    if isinstance(w2, ast.Assign) and (match("%s.pop(COSE_PIV)" % U, w2.value) is not None or match("%s[COSE_PIV]" % U, w2.value) is not None):
                         src_ok = True
         ctx.ob("that number is the integer value of the partial IV found in the OSCORE option", src_ok, fi, w)
 
